@@ -137,7 +137,7 @@ def concrete_outcome_of_paths(paths, assignment, axioms=()):
                 if rc[0] == 'log':
                     logs.append(('log',) + tuple(eval_term(m, x) for x in rc[1:]))
                 else:
-                    logs.append(('logd', eval_term(m, rc[1]), eval_term(m, rc[2]),
+                    logs.append((rc[0], eval_term(m, rc[1]), eval_term(m, rc[2]),
                                  [eval_term(m, b) for b in rc[3]]))
             s.pop()
             return out, logs
